@@ -2,6 +2,7 @@ package liquid
 
 import (
 	"io"
+	"path/filepath"
 
 	"github.com/osteele/liquid/filters"
 	"github.com/osteele/liquid/render"
@@ -136,6 +137,7 @@ func (e *Engine) ParseTemplateAndCache(source []byte, path string, line int) (*T
 	if err != nil {
 		return t, err
 	}
-	e.cfg.Cache[path] = source
+	// an include tag looks a file up under its cleaned path (filepath.Join)
+	e.cfg.Cache[filepath.Clean(path)] = source
 	return t, err
 }
